@@ -401,8 +401,8 @@ func runFsCall(pool *wproto.Pool, s *fsState, c *tok.Conc, massive, alias bool) 
 	} else {
 		rq.Doc = canonItemsDoc(s.Items, c)
 	}
-	// the target directory is handed over in one of five spellings of the same path (four of them relative)
-	rq.TargetSpell = []string{"", "slash", "dot", "dslash", "dotin"}[s.N%5]
+	// the target directory is handed over in one of six spellings of the same path (five of them relative)
+	rq.TargetSpell = []string{"", "slash", "dot", "dslash", "dotin", "dotdot"}[s.N%6]
 	o := &fsOutcome{before: j.snapshot(), jailRoot: j.root, req: rq, ancBefore: j.ancestors()}
 	o.rp = pool.Call(rq, 30*time.Second)
 	o.after = j.snapshot()
